@@ -717,14 +717,27 @@ func runReplay(bin, path string) (map[string]bool, *Result, string, string) {
 	if err := json.Unmarshal(b, &rf); err != nil {
 		return nil, nil, "", err.Error()
 	}
-	co := runChild(bin, []string{"-sim.prop=" + rf.Property, "-sim.replay=" + path, "-sim.trace"}, 120*time.Second)
+	tf := path + ".trace"
+	defer os.Remove(tf)
+	co := runChild(bin, []string{"-sim.prop=" + rf.Property, "-sim.replay=" + path, "-sim.trace", "-sim.tracefile=" + tf}, 120*time.Second)
 	sigs := map[string]bool{}
 	if co.crash != nil {
 		switch co.crash.Verdict {
 		case "crash":
 			sig, detail := crashSignature(rf.Property, co.stderr)
 			sigs[sig] = true
-			return sigs, &Result{Seed: rf.Seed, Verdict: "violation", Violations: []Violation{{sig, detail}}}, detail, ""
+			r := &Result{Seed: rf.Seed, Verdict: "violation", Violations: []Violation{{sig, detail}}}
+			// the child died: take workload description and schedule from the trace file
+			if b, err := os.ReadFile(tf); err == nil {
+				for _, line := range strings.Split(string(b), "\n") {
+					if strings.HasPrefix(line, "DESCRIBE ") {
+						r.Sample = json.RawMessage(strings.TrimPrefix(line, "DESCRIBE "))
+					} else if line != "" && len(r.Trace) < 400 {
+						r.Trace = append(r.Trace, line)
+					}
+				}
+			}
+			return sigs, r, detail, ""
 		default:
 			return nil, nil, "", "child " + co.crash.Verdict + ": " + firstLines(co.stderr, 20)
 		}
